@@ -45,6 +45,11 @@ def value_eq(a, b, path='') -> Any:
         if len(a) != len(b):
             return False
         return z_and(*[z_bool(value_eq(x, y, f'{path}[{i}]')) for i, (x, y) in enumerate(zip(a, b))])
+    if type(a).__name__ == 'SSorted' and type(b).__name__ == 'SSorted':
+        # sorted(xs) == sorted(ys) if xs == ys as sequences (sufficient; both sides sort the same way)
+        if bool(a.dedup) != bool(b.dedup):
+            return False
+        return value_eq(a.seq, b.seq, path + '<sorted>')
     if isinstance(a, SRec) and isinstance(b, SRec):
         keys = set(a.slots) | set(b.slots)
         parts = []
@@ -124,6 +129,12 @@ def subst_value(v, subst):
         if rc is not None:
             out.rec_copy = sv(rc, subst)
         return out
+    if isinstance(v, _MD):
+        out = _MD({k: subst_value(x, subst) for k, x in v.d.items()})
+        out.nodes = list(_subst_seq(Seq(v.nodes), subst).nodes)
+        return out
+    if type(v).__name__ == 'SSorted':
+        return type(v)(_subst_seq(v.seq, subst), v.dedup)
     if isinstance(v, SObj):
         new = {k: subst_value(x, subst) for k, x in v.attrs.items()}
         if all(new[k] is v.attrs[k] for k in new):
